@@ -17,8 +17,8 @@ Transcribed (snapshot ef0888e + the `fix:` commit recorded in findings/C02.txt):
   through `forkPoint` in call order (`runForking` is one goroutine reading a FIFO edge).
 * `forkPoint`: Collect on every edge of `forks[(db,rp,name)]`, then on every edge of `forks[(db,rp,"")]` — since the fix, skipping a
   task already served under the exact key (both entries are the SAME edge). `forkPointOld` is the snapshot's version.
-* inside a task: `StreamNode.runSourceStream` copies every message of the input edge to every child (the from-nodes), `FromNode.Point`
-  forwards iff `matches` (db / rp / measurement equal when set, then the where-predicate; an evaluation error = no match), the
+* inside a task: `StreamNode.runSourceStream` copies every message of the input edge to every child (the top-level from-nodes), `FromNode.Point`
+  forwards iff `matches` (to its sink and to from-nodes chained below it: `chainGets`) (db / rp / measurement equal when set, then the where-predicate; an evaluation error = no match), the
   `@sink()` under from-node #i records. Edges are FIFO and loss-free, so what sink #i records is the input edge's sequence filtered
   by `matches`: that composition is `TM.delivered` (the asynchrony of the pipeline is not modelled; the harness quiesces).
 
@@ -38,6 +38,8 @@ structure From where
   rp : String := ""
   name : String := ""
   wh : Option Nat := none
+  /-- `none`: child of the stream node (`stream|from()`); `some j`: child of from-node #`j` (`fromJ|from()`), `j` earlier in pipeline order -/
+  parent : Option Nat := none
 deriving DecidableEq, Repr, Inhabited
 
 /-- `kapacitor.Task`: id, declared dbrps, the from-nodes in pipeline order. -/
@@ -198,6 +200,14 @@ inductive Op where
   | write (db rp : String) (pts : List RawPoint)
 deriving Repr, Inhabited
 
+/-- `httpd.Handler.serveWriteLine`: one request body ↦ (HTTP status, the `WritePoints` call it makes, if any). A line that does not
+parse (`none`) makes `models.ParsePointsWithPrecision` fail: 400 and NOTHING of the body is written; a missing `db` parameter: 400;
+a missing `rp` parameter is passed on as "" (⇒ default retention policy). `precision` only scales the timestamps. -/
+def serveWriteLine (db rp : String) (lines : List (Option RawPoint)) : Nat × Option Op :=
+  if lines.any (·.isNone) then (400, none)
+  else if db == "" then (400, none)
+  else (204, some (.write db rp (lines.filterMap id)))
+
 def stepWith (fp : TM → Point → TM) (s : TM) : Op → TM
   | .start d => startTask s d
   | .startfail d => startTaskFail s d
@@ -212,12 +222,22 @@ def init (defaultRP : String) : TM := { defaultRP := defaultRP }
 def runWith (fp : TM → Point → TM) (defaultRP : String) (ops : List Op) : TM := ops.foldl (stepWith fp) (init defaultRP)
 def run (defaultRP : String) (ops : List Op) : TM := ops.foldl step (init defaultRP)
 
-/-- Does the sink under from-node #`i` of the task reading the edge record `p`?
-(`runSourceStream` hands `p` to every from-node; `FromNode.Point` forwards iff `matches`.) -/
-def sinkGets (d : TaskDef) (i : Nat) (p : Point) : Bool :=
-  match d.froms[i]? with
-  | some f => f.matches p
-  | none => false
+/-- Does from-node #`i` emit `p`? `runSourceStream` hands every message of the input edge to the children of the stream node; a
+from-node forwards what it receives iff `matches` (`FromNode.Point`), to its sink and to the from-nodes chained below it. `fuel`
+bounds the walk up the parents (a parent precedes its child in pipeline order, so `i+1` suffices). -/
+def chainGets (froms : List From) : Nat → Nat → Point → Bool
+  | 0, _, _ => false
+  | fuel + 1, i, p =>
+    match froms[i]? with
+    | none => false
+    | some f =>
+      f.matches p &&
+      (match f.parent with
+       | none => true
+       | some j => chainGets froms fuel j p)
+
+/-- Does the sink under from-node #`i` of the task reading the edge record `p`? -/
+def sinkGets (d : TaskDef) (i : Nat) (p : Point) : Bool := chainGets d.froms (i + 1) i p
 
 /-- What the sink under from-node #`i` of task `t` has recorded: ids, in order. -/
 def TM.delivered (s : TM) (t : String) (i : Nat) : List Nat :=
